@@ -48,6 +48,7 @@ type Result struct {
 	cur        string
 	curIdx     int
 	caseObs  []string
+	beats    int
 	hashes   map[uint64]struct{}
 	hashFile *os.File
 	out      *os.File
@@ -97,6 +98,14 @@ func (r *Result) Obs(o Obs) {
 // documented reason (e.g. a known finding rooted in map iteration order): the conformance
 // comparison between builds skips it.
 func (r *Result) Volatile() { r.caseObs = append(r.caseObs, "volatile") }
+
+// Beat tells the driver's idle watchdog that a long-running case is making progress.
+func (r *Result) Beat() {
+	r.beats++
+	if r.beats%1000 == 0 {
+		fmt.Fprintf(r.out, "H %d\n", r.beats)
+	}
+}
 
 func (r *Result) Outcome(class string) { r.Outcomes[class]++ }
 func (r *Result) Note(k string, n int)  { r.Notes[k] += n }
